@@ -237,6 +237,61 @@ def run(ctx):
             text = R.join(R.program(decls))
             one_case(ctx, rctx, sandbox, f"p{i}.{lay}", list(R.order), text, dd, keys, requests, cases)
 
+    # ---- 1b. programs with an imported file: the result holds the imported declarations (each once, as written in
+    #          their own file) followed by the file's own; the same paths are parsed again and again in this process
+    imp_cases = []
+    for i in range(ctx.n(120, 1500)):
+        r = random.Random(f"{ctx.seed}/c03/imp/{i}")
+        gl = front.Gen(r, p_bad=0.0, dup_names=False, max_decls=r.choice([1, 2, 3]))
+        gl.well_typed = True
+        lib = gl.program_with_visible([], prefix="l_")
+        gm = front.Gen(r, p_bad=0.0, dup_names=False, max_decls=r.choice([1, 2, 4]))
+        gm.well_typed = True
+        main = gm.program_with_visible(lib, prefix="m_")
+        Rl, Rm = front.Render(r, r.choice(['min', 'random'])), front.Render(r, r.choice(['min', 'random']))
+        lib_text = Rl.join(Rl.program(lib))
+        lib_order = list(Rl.order)
+        body = Rm.join(Rm.program(main))
+        lit = r.choice(["lib.djinni", "./lib.djinni", "sub/../lib.djinni"])
+        main_text = f'@import "{lit}"' + r.choice(["\n", "\n\n", " \n"]) + body
+        (sandbox / "sub").mkdir(exist_ok=True)
+        (sandbox / "lib.djinni").write_text(lib_text, newline="")
+        (sandbox / "m.djinni").write_text(main_text, newline="")
+        impl = front.real_parse(rctx[()], sandbox / "m.djinni", sandbox, with_defs=True)
+        impl.pop("result", None)
+        imp_cases.append((i, lib_order, lib_text, list(Rm.order), main_text, impl))
+    for (i, lib_order, lib_text, main_order, main_text, impl) in imp_cases:
+        ctx.count(key="imp" + str(hash(main_text + lib_text)), sample={"text": main_text[:200], "lib": lib_text[:200], "impl_kind": impl["kind"]})
+        ctx.stat("import_impl_" + impl["kind"])
+        inp = {"m.djinni": main_text, "lib.djinni": lib_text}
+        if impl["kind"] == "crash":
+            ctx.report("internal-error", "parsing ended in an internal exception", {"input": inp, "impl": impl})
+            continue
+        if impl["kind"] != "ok":
+            ctx.report("ast-not-faithful:well-typed-program-rejected", "a well-typed two-file program is not accepted",
+                       {"input": inp, "impl": {k: v for k, v in impl.items() if k not in ("ast", "bindings")}})
+            continue
+        fails = spec_failures(main_text, main_order, impl, keys, ())
+        got = {(tuple(d["ns"]), d["n"]): d for d in impl["defs_dump"]}
+        if len(got) != len(impl["defs_dump"]):
+            fails.append({"kind": "imported-declaration-twice", "names": sorted(".".join(list(k[0]) + [k[1]]) for k in got)})
+        for d_exp, d_src in zip(front.expected_dump(lib_order, keys, ()), lib_order):
+            g = got.get((tuple(d_exp["ns"]), d_exp["n"]))
+            if g is None:
+                fails.append({"kind": "imported-declaration-missing", "decl": d_exp["n"]})
+                break
+            if g["file"] != "/lib.djinni" or front.strip_positions({k: v for k, v in g.items() if k != "file"}) != d_exp:
+                fails.append({"kind": "imported-declaration-differs-from-source", "decl": d_exp["n"], "file": g["file"]})
+                break
+        lib_ast = [{k: v for k, v in got[(tuple(d["ns"]), d["n"])].items() if k != "file"} for d in front.expected_dump(lib_order, keys, ()) if (tuple(d["ns"]), d["n"]) in got]
+        if not fails and len(lib_ast) == len(lib_order):
+            pf = position_failures(lib_text, lib_order, lib_ast)
+            if pf:
+                fails.append({"kind": "position-does-not-delimit", "file": "lib.djinni", "first": pf[0], "count": len(pf)})
+        for f in fails:
+            ctx.report("ast-not-faithful:" + f["kind"], "the delivered AST is not a faithful image of the source text (program with an imported file)",
+                       {"input": inp, "failure": f})
+
     # ---- 2. exhaustive target-flag sequences --------------------------------------------------
     alphabet = [s + n for s in "+-" for n in ["cpp", "java", "objc", "cppcli", "yaml", "any", "zz"]]
     maxlen = ctx.n(2, 3)
@@ -347,6 +402,9 @@ def replay(ctx, body):
     inp = body["input"]
     p = ctx.tmp / "m.djinni"
     p.write_text(inp["m.djinni"], newline="")
+    if "lib.djinni" in inp:
+        (ctx.tmp / "sub").mkdir(exist_ok=True)
+        (ctx.tmp / "lib.djinni").write_text(inp["lib.djinni"], newline="")
     dd = tuple(inp.get("default_deriving", ()))
     impl = front.real_parse(front.make_context(default_deriving=list(dd)), p, ctx.tmp)
     impl.pop("result", None)
